@@ -119,6 +119,57 @@ FLAT = {
     "designator_header": dict(tables=["scsi_cdb_inquiry.Inquiry._designator_bits"], length=4, fields=[
         ("protocol_identifier", 0, 7, 4), ("code_set", 0, 3, 4), ("piv", 1, 7, 1), ("association", 1, 5, 2),
         ("designator_type", 1, 3, 4), ("designator_length", 3, 7, 8)]),
+    # ---- parameter lists sent to the device (SPC-4 6.16.3 / 6.16.4, 6.4 / 6.5) -------------------------------
+    "prout_basic": dict(tables=["scsi_cdb_persistentreserveout.PersistentReserveOut._basic_parameter_list_bits"], length=24, fields=[
+        ("reservation_key", 0, 7, 64), ("service_action_reservation_key", 8, 7, 64), ("spec_i_pt", 20, 3, 1),
+        ("all_tg_pt", 20, 2, 1), ("aptpl", 20, 0, 1)]),
+    "prout_register_and_move": dict(tables=["scsi_cdb_persistentreserveout.PersistentReserveOut._ram_parameter_list_bits"], length=24, fields=[
+        ("reservation_key", 0, 7, 64), ("service_action_reservation_key", 8, 7, 64), ("unreg", 17, 1, 1), ("aptpl", 17, 0, 1),
+        ("relative_target_port_id", 18, 7, 16), ("transportid_length", 20, 7, 32)]),
+    "transport_id_header": dict(tables=["scsi_cdb_persistentreservein.PersistentReserveInReadFullStatus._transport_id_bits"], length=24, fields=[
+        ("tpid_format", 0, 7, 2), ("protocol_id", 0, 3, 4)]),
+    "xcopy_lid1_header": dict(tables=["scsi_cdb_extended_copy_spc4.ExtendedCopy._parameter_list_bits"], length=16, fields=[
+        ("list_identifier", 0, 7, 8), ("str", 1, 5, 1), ("nrcr", 1, 4, 1), ("priority", 1, 2, 3),
+        ("target_descriptor_list_length", 2, 7, 16), ("segment_descriptor_list_length", 8, 7, 32), ("inline_data_length", 12, 7, 32)]),
+    "xcopy_lid4_header": dict(tables=["scsi_cdb_extended_copy_spc5.ExtendedCopy._parameter_list_bits"], length=48, fields=[
+        ("parameter_list_format", 0, 7, 8), ("str", 1, 5, 1), ("list_id_usage", 1, 4, 2), ("priority", 1, 2, 3),
+        ("header_cscd_descriptor_list_length", 2, 7, 16), ("g_sense", 15, 1, 1), ("immed", 15, 0, 1),
+        ("header_cscd_descriptor_type_code", 16, 7, 8), ("list_identifier", 20, 7, 32), ("cscd_descriptor_list_length", 42, 7, 16),
+        ("segment_descriptor_list_length", 44, 7, 16), ("inline_data_length", 46, 7, 16)]),
+    "xcopy_target_descriptor": dict(tables=["scsi_cdb_extended_copy_spc4.ExtendedCopy._target_descriptor_bits",
+                                            "scsi_cdb_extended_copy_spc4.ExtendedCopy._device_specific_target_descriptor_parameters_block"], length=32, fields=[
+        ("descriptor_type_code", 0, 7, 8), ("lu_id_type", 1, 7, 2), ("peripheral_device_type", 1, 4, 5),
+        ("relative_initiator_port_identifier", 2, 7, 16), ("pad", 28, 2, 1), ("disk_block_length", 29, 7, 24)]),
+    "xcopy_target_sequential": dict(tables=["scsi_cdb_extended_copy_spc4.ExtendedCopy._device_specific_target_descriptor_parameters_sequential"], length=32, fields=[
+        ("pad", 28, 2, 1), ("fixed", 28, 0, 1), ("stream_block_length", 29, 7, 24)]),
+    "xcopy_cscd_descriptor": dict(tables=["scsi_cdb_extended_copy_spc5.ExtendedCopy._cscd_descriptor_bits",
+                                          "scsi_cdb_extended_copy_spc5.ExtendedCopy._device_specific_cscd_descriptor_parameters_block"], length=32, fields=[
+        ("descriptor_type_code", 0, 7, 8), ("lu_id_type", 1, 7, 2), ("peripheral_device_type", 1, 4, 5),
+        ("relative_initiator_port_identifier", 2, 7, 16), ("pad", 28, 2, 1), ("disk_block_length", 29, 7, 24)]),
+    "xcopy_identification_designator": dict(tables=["scsi_cdb_extended_copy_spc4.ExtendedCopy._target_designator_bits"], length=4, fields=[
+        ("code_set", 0, 3, 4), ("association", 1, 5, 2), ("designator_type", 1, 3, 4), ("designator_length", 3, 7, 8)]),
+    "xcopy_segment_block_stream": dict(tables=["scsi_cdb_extended_copy_spc4.ExtendedCopy._segment_descriptor_bits_block_to_stream"], length=24, fields=[
+        ("descriptor_type_code", 0, 7, 8), ("cat", 1, 0, 1), ("descriptor_length", 2, 7, 16), ("source_target_descriptor_id", 4, 7, 16),
+        ("destination_target_descriptor_id", 6, 7, 16), ("stream_device_transfer_length", 9, 7, 24),
+        ("block_device_number_of_blocks", 14, 7, 16), ("block_device_logical_block_address", 16, 7, 64)]),
+    "xcopy_segment_block_block": dict(tables=["scsi_cdb_extended_copy_spc4.ExtendedCopy._segment_descriptor_bits_block_to_block"], length=28, fields=[
+        ("descriptor_type_code", 0, 7, 8), ("dc", 1, 1, 1), ("cat", 1, 0, 1), ("descriptor_length", 2, 7, 16),
+        ("source_target_descriptor_id", 4, 7, 16), ("destination_target_descriptor_id", 6, 7, 16),
+        ("block_device_number_of_blocks", 10, 7, 16), ("source_block_device_logical_block_address", 12, 7, 64),
+        ("destination_block_device_logical_block_address", 20, 7, 64)]),
+    "xcopy5_segment_block_stream": dict(tables=["scsi_cdb_extended_copy_spc5.ExtendedCopy._segment_descriptor_bits_block_to_stream"], length=24, fields=[
+        ("descriptor_type_code", 0, 7, 8), ("cat", 1, 0, 1), ("descriptor_length", 2, 7, 16), ("source_cscd_descriptor_id", 4, 7, 16),
+        ("destination_cscd_descriptor_id", 6, 7, 16), ("stream_device_transfer_length", 9, 7, 24),
+        ("block_device_number_of_blocks", 14, 7, 16), ("block_device_logical_block_address", 16, 7, 64)]),
+    "xcopy5_segment_stream_block": dict(tables=["scsi_cdb_extended_copy_spc5.ExtendedCopy._segment_descriptor_bits_stream_to_block"], length=24, fields=[
+        ("descriptor_type_code", 0, 7, 8), ("cat", 1, 0, 1), ("descriptor_length", 2, 7, 16), ("source_cscd_descriptor_id", 4, 7, 16),
+        ("destination_cscd_descriptor_id", 6, 7, 16), ("stream_device_transfer_length", 9, 7, 24),
+        ("block_device_number_of_blocks", 14, 7, 16), ("block_device_logical_block_address", 16, 7, 64)]),
+    "xcopy5_segment_block_block": dict(tables=["scsi_cdb_extended_copy_spc5.ExtendedCopy._segment_descriptor_bits_block_to_block"], length=28, fields=[
+        ("descriptor_type_code", 0, 7, 8), ("fco", 1, 2, 1), ("dc", 1, 1, 1), ("cat", 1, 0, 1), ("descriptor_length", 2, 7, 16),
+        ("source_cscd_descriptor_id", 4, 7, 16), ("destination_cscd_descriptor_id", 6, 7, 16),
+        ("block_device_number_of_blocks", 10, 7, 16), ("source_block_device_logical_block_address", 12, 7, 64),
+        ("destination_block_device_logical_block_address", 20, 7, 64)]),
 }
 
 # list formats: where the descriptor list starts, which header bytes hold its length, what the length counts from
